@@ -11,8 +11,9 @@ RULE = ('at sampled states of generated histories (blocked on each gate, '
         'queued, merged, declined, pending and repeated commands) every '
         'possible evaluation (PR event on every PR incl. integration PRs, '
         'commit event on every source / w / q tip; up to 8 per state) is '
-        'delivered three times in a fork child: the third must change no ref, '
-        'PR or comment, and a command status must not repeat without a new '
+        'delivered four times in a fork child (one evaluation plus two more '
+        'must reach a stable state): the fourth must change no ref, PR or '
+        'comment, and a command status must not repeat without a new '
         'command comment; the same evaluation is delivered once to a fresh '
         'instance in another child and status + resulting state (commit ids '
         'are reproducible: dates pinned) must equal the long-lived '
